@@ -588,11 +588,20 @@ def rule_rd_comment(cx, rep, port):
         g = cfgmod.CFG(fd)
         incs = [n for n in g.nodes if n.kind == 'stmt' and isinstance(n.ast, (ast.AugAssign, ast.Assign)) and dotted(n.ast.target if isinstance(n.ast, ast.AugAssign) else n.ast.targets[0]) == 'self.NR']
         fetch = [n for n in g.nodes if n.kind == 'stmt' and isinstance(n.ast, ast.Assign) and isinstance(n.ast.value, ast.Call) and call_name(n.ast.value) == 'self.polymorphic_get_row']
-        if len(incs) != 1 or len(fetch) != 1:
+        lines = {dotted(f.ast.targets[0]) for f in fetch}
+        if len(incs) != 1 or not fetch or len(lines) != 1 or None in lines:
             rep.undecided('comment skip', fd, 'record counter / row fetch not recognised')
             return
-        line = dotted(fetch[0].ast.targets[0])
-        bad = _comment_escape_path(g, fetch[0], incs[0], line)
+        line = lines.pop()
+        bad = False
+        for f in fetch:       # a priming read and a re-read inside the skipping loop are both starting points
+            b1 = _comment_escape_path(g, f, incs[0], line, fetch)
+            if b1 is None:
+                bad = None
+                break
+            if b1 is not False:
+                bad = b1
+                break
         if bad is None:
             rep.undecided('comment skip', fd, 'comment test not recognised')
         else:
@@ -645,7 +654,7 @@ def rule_rd_comment(cx, rep, port):
             rep.decide(ok2, 'rfc comment skip', agg, 'in quoted_rfc a comment is recognised only outside a multi-line record', 'in quoted_rfc a comment prefix inside a multi-line record is treated as a comment')
 
 
-def _comment_escape_path(g, src, dst, line):
+def _comment_escape_path(g, src, dst, line, refetch=()):
     """False if no path src -> dst is consistent with (prefix is not None and line.startswith(prefix)); a line number if one is;
     None if the tests are not recognised.  Atoms: A = `self.comment_prefix is None`, B = `line.startswith(self.comment_prefix)`."""
     def ev(e, A, B):
@@ -689,7 +698,7 @@ def _comment_escape_path(g, src, dst, line):
                     return None
                 if (lab == 'T') != v:
                     continue
-            if s_ is src:
+            if s_ is src or s_ in refetch:
                 continue   # a new line is fetched: new valuation
             stack.append(s_)
     return False
@@ -828,20 +837,85 @@ def rule_rd_hdrflag(cx, rep, port):
     rep.require_count('has_header assignments', n, 3, it)
     # modifier vocabulary
     hq = [m for m in it.body if isinstance(m, ast.FunctionDef) and m.name == 'handle_query_modifier'][0]
-    words = {}
-    for iff in [x for x in hq.body if isinstance(x, ast.If)]:
-        lists = [x for x in ast.walk(iff.test) if isinstance(x, ast.List)]
-        vals = [e.value for l in lists for e in l.elts if isinstance(e, ast.Constant)]
-        hv = [s.value.value for s in iff.body if isinstance(s, ast.Assign) and dotted(s.targets[0]) == 'self.has_header' and isinstance(s.value, ast.Constant)]
-        for v in vals:
-            words[v] = hv[0] if hv else None
+    from .. import pathsem
+    mparam = hq.args.args[1].arg
     want = {'header': True, 'headers': True, 'noheader': False, 'noheaders': False}
-    rep.decide(words == want, 'modifier vocabulary', hq, 'header(s) -> True, noheader(s) -> False', 'WITH modifier vocabulary is {} (must be {})'.format(words, want))
+    hps = pathsem.paths(hq)
+    if hps is None:
+        rep.undecided('modifier vocabulary', hq, 'handle_query_modifier is not summarisable as paths')
+    else:
+        words = {}
+        unknown = False
+        for word in list(want) + ['<any other word>']:
+            def leaf(e, word=word):
+                def member(seq):
+                    if isinstance(seq, (ast.List, ast.Tuple, ast.Set)) and all(isinstance(x, ast.Constant) for x in seq.elts):
+                        return word in [x.value for x in seq.elts]
+                    return None
+                if isinstance(e, ast.Compare) and len(e.ops) == 1:
+                    l_, r_, op = e.left, e.comparators[0], e.ops[0]
+                    if isinstance(op, (ast.Eq, ast.Is, ast.NotEq, ast.IsNot)):
+                        c = r_ if is_name(l_, mparam) else (l_ if is_name(r_, mparam) else None)
+                        if c is not None and isinstance(c, ast.Constant) and isinstance(c.value, str):
+                            return (c.value == word) == isinstance(op, (ast.Eq, ast.Is))
+                        # [..].indexOf(modifier) != -1
+                        if isinstance(l_, ast.Call) and isinstance(l_.func, ast.Attribute) and l_.func.attr in ('indexOf', 'index') and len(l_.args) == 1 and is_name(l_.args[0], mparam) and isinstance(r_, (ast.Constant, ast.UnaryOp)) and node_text(r_).replace(' ', '') == '-1':
+                            mb = member(l_.func.value)
+                            return None if mb is None else (mb == isinstance(op, (ast.NotEq, ast.IsNot)))
+                    if isinstance(op, (ast.In, ast.NotIn)) and is_name(l_, mparam):
+                        mb = member(r_)
+                        return None if mb is None else (mb == isinstance(op, ast.In))
+                    if isinstance(op, (ast.GtE, ast.Gt)) and isinstance(l_, ast.Call) and isinstance(l_.func, ast.Attribute) and l_.func.attr == 'indexOf' and len(l_.args) == 1 and is_name(l_.args[0], mparam):
+                        txt_ = node_text(r_).replace(' ', '')
+                        if (isinstance(op, ast.GtE) and txt_ == '0') or (isinstance(op, ast.Gt) and txt_ == '-1'):
+                            return member(l_.func.value)
+                if isinstance(e, ast.Call) and isinstance(e.func, ast.Attribute) and e.func.attr == 'includes' and len(e.args) == 1 and is_name(e.args[0], mparam):
+                    return member(e.func.value)
+                return None
+            outs = []
+            for q in hps:
+                vs = [pathsem.eval_cond(t_, leaf) for t_, _ in q.conds]
+                if any(v is None for v in vs):
+                    unknown = True
+                if pathsem.consistent(q, leaf):
+                    sv = [v_ for t_, v_ in q.stores if dotted(t_) == 'self.has_header']
+                    outs.append(sv[-1].value if sv and isinstance(sv[-1], ast.Constant) else (None if not sv else '?'))
+            words[word] = outs[0] if len(set(map(repr, outs))) == 1 else '?'
+        if unknown or '?' in words.values():
+            rep.undecided('modifier vocabulary', hq, 'a test of handle_query_modifier is not a recognised test of the modifier word ({})'.format(words))
+        else:
+            wrong = {k: v for k, v in words.items() if want.get(k) != v}
+            rep.decide(not wrong, 'modifier vocabulary', hq, 'header(s) -> True, noheader(s) -> False, anything else leaves the flag alone', 'WITH modifier vocabulary: {} (must be {})'.format(wrong, {k: want.get(k) for k in wrong}))
     # get_header returns the pre-read first record iff has_header; get_record replays it iff the flag is set
     gh = [m for m in it.body if isinstance(m, ast.FunctionDef) and m.name == 'get_header'][0]
-    rets = [r for r in walk_no_nested(gh) if isinstance(r, ast.Return)]
-    okh = len(rets) == 1 and isinstance(rets[0].value, ast.IfExp) and dotted(rets[0].value.test) == 'self.has_header' and dotted(rets[0].value.body) == 'self.first_record' and is_none(rets[0].value.orelse)
-    rep.decide(okh, 'get_header', gh, 'header = first record iff has_header', 'get_header does not return the first record exactly when has_header is set')
+    gps = pathsem.paths(gh)
+    if gps is None:
+        rep.undecided('get_header', gh, 'get_header is not summarisable as paths')
+    else:
+        okh, n_seen = True, 0
+        for hv in (True, False):
+            def leaf2(e, hv=hv):
+                if dotted(e) == 'self.has_header':
+                    return hv
+                return None
+            for q in gps:
+                if not pathsem.consistent(q, leaf2):
+                    continue
+                if any(pathsem.eval_cond(t_, leaf2) is None for t_, _ in q.conds):
+                    okh = None
+                    break
+                n_seen += 1
+                val = q.value if q.kind == 'return' else None
+                if hv:
+                    okh = okh and val is not None and dotted(val) == 'self.first_record'
+                else:
+                    okh = okh and (val is None or is_none(val))
+            if okh is None:
+                break
+        if okh is None:
+            rep.undecided('get_header', gh, 'get_header depends on something else than has_header')
+        else:
+            rep.decide(bool(okh) and n_seen >= 2, 'get_header', gh, 'header = first record iff has_header', 'get_header does not return the first record exactly when has_header is set')
 
 
 def _blocks(fd):
